@@ -148,6 +148,20 @@ inductive TestOut (α : Type) where
   | details (b : Bool) (diffs : List α) (perms : List (List Nat))
   deriving Repr, BEq, DecidableEq
 
+/-- the yes/no part of the answer. -/
+def TestOut.answer : TestOut α → Bool
+  | .plain b => b
+  | .details b _ _ => b
+
+/-- `data.ravel()` (NumPy's default: last index fastest). -/
+def ravelC [Zero α] (T : Dense α) : List α :=
+  (allSubs T.shape.reverse).map fun r => T.get r.reverse
+
+/-- the exemplar comparison of the code before the fix dce0022: first-index-fastest class
+indices against a last-index-fastest `data.ravel()`.  Kept only for the pinned counterexample. -/
+def classCheckPinned [BEq α] [Zero α] (T : Dense α) (g : List Nat) : Bool :=
+  (List.zipWith (· == ·) (ravelC T) ((allSubs T.shape).map fun i => T.get (classSub g i))).all id
+
 /-- default version (no `version`, no details): per group – sizes (unequal: `False`), then
 every entry against its class exemplar. -/
 def issymmetricNewGo [BEq α] [Zero α] (T : Dense α) : List (List Nat) → Except Reject Bool
